@@ -5,7 +5,7 @@
 //   c08_http_reader    HttpReader against a raw local HTTP/1.1 server that fragments bodies and cuts connections after
 //                      scripted byte counts: chunks are exact; every retry resumes at the first byte not yet received;
 //                      exhausted retries / early body end => error, never a short, shifted or duplicated chunk
-// Zero-size ranges are excluded (see DESIGN.md section 5: IoChunkReader returns the previous buffer for a zero-size chunk).
+// Zero-size ranges are included for the local reader (finding K11, fixed); over HTTP they are excluded (finding K6, open).
 #![cfg(feature = "compress")]
 use std::io::SeekFrom;
 use std::pin::Pin;
@@ -68,6 +68,7 @@ fn range_lists(n: usize) -> Vec<Vec<(u64, usize)>> {
         vec![(10, 8), (10, 8), (12, 3)],                   // duplicates / overlapping
         vec![(n - 6, 6), (0, 1)],                          // up to the last byte
         vec![(0, 70), (70, 30)],                           // larger than typical read sizes
+        vec![(0, 4), (10, 0), (20, 3), (23, 0)],           // zero-size ranges (K11)
     ]
 }
 
